@@ -21,6 +21,7 @@ func init() {
 	chk.RegisterWorker("c07graphs", workC07Graphs)
 	chk.RegisterWorker("c07faults", workC07Faults)
 	chk.RegisterWorker("c07seq", workC07Seq)
+	chk.RegisterWorker("c07cuts", workC07Cuts)
 }
 
 // c07Generic checks file membership, index, line/column, quote; wantTrace (nil = do not check, empty = no trace)
@@ -34,7 +35,9 @@ func c07Generic(w *run.W, fam string, pr impl.Project, e *impl.ErrObs, wantTrace
 	}
 	if int(e.Index) >= len(content) {
 		cls := "other"
-		if strings.Contains(e.Msg, "end of file") || strings.Contains(e.Msg, "parenthesis is not closed") || strings.Contains(e.Msg, "The first directive in the document must be JSIGHT") {
+		if strings.Contains(e.Msg, "end of file") || strings.Contains(e.Msg, "parenthesis is not closed") || strings.Contains(e.Msg, "The first directive in the document must be JSIGHT") ||
+			(int(e.Index) == len(content) && e.Line == 0) {
+			// an error detected when the input ends: reported at the position after the last byte, line 0
 			cls = "end-of-input"
 		}
 		w.Violation("C07", "index-outside-file:"+cls, fmt.Sprintf("[%s] error %q has index %d in %q which has %d bytes (line %d, column %d)\n%s", fam, e.Msg, e.Index, e.File, len(content), e.Line, e.Col, trunc(showProject(pr), 700)), detail)
@@ -53,7 +56,8 @@ func c07Generic(w *run.W, fam string, pr impl.Project, e *impl.ErrObs, wantTrace
 		if len(rawLine) > 200 {
 			rawLine = rawLine[:197] + "..."
 		}
-		if e.Quote != quote && e.Quote != rawLine {
+		// (a text cut inside a CRLF pair ends with a lone CR: the reference keeps it, the quote may drop it)
+		if e.Quote != quote && e.Quote != rawLine && e.Quote != strings.TrimRight(quote, "\r") {
 			w.Violation("C07", "quote", fmt.Sprintf("[%s] error %q quote %q, the line reads %q\n%s", fam, e.Msg, e.Quote, quote, trunc(showProject(pr), 700)), detail)
 			return
 		}
@@ -445,6 +449,74 @@ func workC07Seq(w *run.W) {
 	}
 }
 
+// workC07Cuts: every position of the compact documents damaged by one special byte (or the text cut there): whatever
+// error results must be truthfully located, also when it sits on a line terminator.
+func workC07Cuts(w *run.W) {
+	dir := workerDir(w)
+	defer os.RemoveAll(dir)
+	var idx int64
+	for di, doc := range c01InjectDocs {
+		for ei, eol := range []string{"\n", "\r\n", "\r"} {
+			text := strings.ReplaceAll(doc, "\n", eol)
+			for i := 0; i < len(text); i++ {
+				idx++
+				if !w.Mine(idx) || !w.Begin(fmt.Sprintf("cuts/doc%d/eol%d/pos%d", di, ei, i)) {
+					continue
+				}
+				var variants []string
+				if eol == "\r\n" && (text[i] == '\r' || text[i] == '\n') {
+					// damaging one half of a CRLF pair leaves mixed line endings, which are not judged
+					w.End()
+					continue
+				}
+				for _, b := range []byte("\n\"()#/\xff ") {
+					if b == '\n' {
+						if eol == "\r\n" {
+							continue // a lone LF in a CRLF file: mixed line endings are not judged
+						}
+						b = eol[0]
+					}
+					if text[i] == b {
+						continue
+					}
+					x := []byte(text)
+					x[i] = b
+					variants = append(variants, string(x))
+				}
+				variants = append(variants, text[:i])
+				for _, v := range variants {
+					for _, included := range []bool{false, true} {
+						pr := impl.Single(v)
+						var trace []string
+						if included {
+							if !strings.HasPrefix(v, "JSIGHT 0.3"+eol) {
+								continue
+							}
+							body := v[len("JSIGHT 0.3"+eol):]
+							pr = impl.Project{Root: "root.jst", Files: map[string]string{"root.jst": "JSIGHT 0.3" + eol + "INCLUDE piece.jst" + eol, "piece.jst": body}}
+						}
+						b := pr.Build(dir)
+						w.Count("cases", 1)
+						if b.Err == nil || b.Panic != nil {
+							continue
+						}
+						w.Nontrivial(showProject(pr))
+						check := false
+						if included && b.Err.File == "piece.jst" {
+							trace = []string{fmt.Sprintf("piece.jst:%d", b.Err.Line), "root.jst:2"}
+							check = int(b.Err.Index) < len(pr.Files["piece.jst"])
+						} else if !included {
+							check = true
+						}
+						c07Generic(w, "cuts", pr, b.Err, trace, check)
+					}
+				}
+				w.End()
+			}
+		}
+	}
+}
+
 func runC07(c *chk.Ctx) {
 	fam := map[string]any{}
 	steps := []struct {
@@ -454,6 +526,7 @@ func runC07(c *chk.Ctx) {
 		{"c07graphs", c07GraphParams{Files: chk.Pick(c, 4, 5)}},
 		{"c07faults", c07FaultParams{Budget: chk.Pick(c, 2, 3)}},
 		{"c07seq", c07SeqParams{Len: chk.Pick(c, 2, 3)}},
+		{"c07cuts", map[string]any{}},
 	}
 	for _, s := range steps {
 		b0 := c.Counts()["cases"]
@@ -462,6 +535,6 @@ func runC07(c *chk.Ctx) {
 		fam[s.kind] = map[string]any{"params": s.p, "cases": c.Counts()["cases"] - b0}
 	}
 	c.Cov["families"] = fam
-	c.Cov["rule"] = "rejected members of three exhaustively enumerated families: (graphs) all acyclic include graphs on k files with <= 2 ordered includes per file (same file twice, diamonds, nesting) x fault kind {scan, context, rule, missing include, duplicate by double inclusion} x file x position x {LF, CRLF, CR}; (faults) every C03 single-fault document in place / in a pasted MACRO / in an INCLUDEd file x three line endings; (sequences) all directive-instance sequences up to the bound x three line endings. Oracle: file of the project, index inside it, line/column recomputed independently from the index, quote = that line, Error() = message + exactly the chain of INCLUDE lines, innermost first"
+	c.Cov["rule"] = "rejected members of four exhaustively enumerated families: (cuts) two compact documents covering every kind of region, in LF / CRLF / CR form, alone and as an INCLUDEd file, with one byte at every position replaced by each of {line feed, quote, parenthesis, '#', slash, 0xFF, blank} or the text cut there — errors located on line terminators, inside quotes, at cut keywords; (graphs) all acyclic include graphs on k files with <= 2 ordered includes per file (same file twice, diamonds, nesting) x fault kind {scan, context, rule, missing include, duplicate by double inclusion} x file x position x {LF, CRLF, CR}; (faults) every C03 single-fault document in place / in a pasted MACRO / in an INCLUDEd file x three line endings; (sequences) all directive-instance sequences up to the bound x three line endings. Oracle: file of the project, index inside it, line/column recomputed independently from the index, quote = that line, Error() = message + exactly the chain of INCLUDE lines, innermost first"
 	c.Assumptions = append(c.Assumptions, "files use one line-ending convention each (mixed endings are not judged)")
 }
